@@ -31,8 +31,12 @@ class RecordingImpl:
         return (state + (("pm", dt),), covariance + (("pm", dt),))
 
     def sensor_model(self, state, covariance, *, sensor_key, sensor_reading):
+        if sensor_key == "missing":
+            raise KeyError(sensor_key)  # like the real filter for a sensor it does not have
         self.calls.append(("sensor_model", sensor_key, sensor_reading))
         return (state + (("sm", sensor_key, sensor_reading),), covariance + (("sm", sensor_key, sensor_reading),))
 
     def make_reading(self, key, *, data=None, **kwargs):
+        if key == "missing":
+            raise KeyError(key)
         return ("reading", key, tuple(sorted(kwargs.items())))
